@@ -34,17 +34,22 @@ LEVEL = 'proof'
 # take     : harness names of that module to rebuild (None = all) per tier
 # stride   : keep every n-th accepted request per tier (1 = all)
 REPLAY = [
-    dict(mod='c03', take={'quick': None, 'thorough': None}, stride={'quick': 1, 'thorough': 1}),
-    dict(mod='c04', take={'quick': None, 'thorough': None}, stride={'quick': 1, 'thorough': 1}),
-    dict(mod='c06', take={'quick': None, 'thorough': None}, stride={'quick': 2, 'thorough': 1}),
-    dict(mod='c07', take={'quick': ('h_c07q_0',), 'thorough': None}, stride={'quick': 1, 'thorough': 1}),
-    dict(mod='c08', take={'quick': ('h_c08', 'h_c08c', 'h_c08n', 'h_c08r'), 'thorough': None}, stride={'quick': 2, 'thorough': 1}),
+    dict(mod='c03', take={'quick': None, 'thorough': None}, stride={'quick': 1, 'thorough': 30}),
+    dict(mod='c04', take={'quick': None, 'thorough': None}, stride={'quick': 1, 'thorough': 3}),
+    dict(mod='c06', take={'quick': None, 'thorough': None}, stride={'quick': 2, 'thorough': 4}),
+    dict(mod='c07', take={'quick': ('h_c07q_0',), 'thorough': ('h_c07t_0', 'h_c07t_1', 'h_c07t_2')}, stride={'quick': 1, 'thorough': 1}),
+    dict(mod='c08', take={'quick': ('h_c08', 'h_c08c', 'h_c08n', 'h_c08r'), 'thorough': ('h_c08', 'h_c08c', 'h_c08n', 'h_c08r', 'h_c08f1')},
+         stride={'quick': 2, 'thorough': 4}),
     # C05 (slice), C12 (SIMD), C16 (linear algebra), C17 (NN): append here once their modules are merged, e.g.
     # dict(mod='c05', take={'quick': None, 'thorough': None}, stride={'quick': 1, 'thorough': 1}),
 ]
 # requests whose operands have more elements than this are not replayed: under ASan they cost several ms each and the
 # runner's time-out is per request STREAM (0.002 s per request), so a slow stream would be reported as a crash
 REPLAY_MAX_ELEMS = {'quick': 128, 'thorough': 512}
+# known-finding classes of a replayed property in which the unchanged code reads OUTSIDE the operand on arguments the
+# reference accepts (observed: std::out_of_range from the buffer's at(), failed assert): they violate C02 as well
+SHARED_KNOWN = {'c04': ('repeat_negative_axis', 'take_negative_index', 'concatenate_negative_axis',
+                        'split_index_beyond_extent', 'diagonal_negative_offset')}
 SAN_SUFFIX = '_sanev'      # sanitizers + events; a name of its own so that the owners' caches are not evicted
 MAX_PARALLEL_COMPILES = 6
 
@@ -139,6 +144,7 @@ def gen_replay(tier, rng):
         preds = list(getattr(m, 'KNOWN_PREDICATES', {}).values())
         stride = ent['stride'][tier]
         k = 0
+        shared_n = {}
         sub = random.Random(rng.random())
         for c in m.gen(tier, sub):
             if c.harness not in specs:
@@ -148,7 +154,14 @@ def gen_replay(tier, rng):
             if c.oracle is None and not c.model:
                 continue                       # nobody says whether it is accepted
             if any(p(c) for p in preds):
-                continue                       # known-finding class of the owning property
+                # known-finding class of the owning property: not replayed — except the classes whose defect IS an access
+                # outside the operand (listed as C02 findings too, see known/C02.json), a bounded sample of them
+                hit = [n for n in SHARED_KNOWN.get(ent['mod'], ()) if m.KNOWN_PREDICATES[n](c)]
+                if hit and shared_n.get(hit[0], 0) < (150 if tier == 'quick' else 1000) and _req_elems(c.req) <= 64:
+                    shared_n[hit[0]] = shared_n.get(hit[0], 0) + 1
+                    yield Case(c.req, c.harness + SAN_SUFFIX, dom=False, oracle=c.oracle, model=False, nontrivial=True,
+                               tags=('replay', 'replay:' + m.ID, 'known-defect-class', 'known:' + hit[0]), cmp=_cmp_replay)
+                continue
             if _req_elems(c.req) > REPLAY_MAX_ELEMS[tier]:
                 continue
             k += 1
@@ -197,22 +210,21 @@ def _tu(name, store, m1, m2=0, m3=0, d1=0, d2=0, d3=0, D=None, N=None, fixed=Non
                 spec=dict(name=name, src='h_c02.cpp', flavour='san-dbg', extra=extra))
 
 
-BND_M2 = mask('transpose', 'tile', 'bcast', 'sum')
-BND_M2B = mask('reshape', 'pad', 'take', 'slice')
-D3A = (mask('reshape', 'tile', 'pad', 'slice'), mask('transpose', 'bcast', 'take', 'add2'), mask('reshape', 'tile', 'slice', 'sum'))
+BND_M2 = mask('tile', 'bcast', 'sum')
+BND_M2B = mask('transpose', 'reshape', 'pad', 'slice')
+D3A = (mask('reshape', 'tile', 'pad', 'slice'), mask('transpose', 'bcast', 'take', 'add2'), mask('reshape', 'tile', 'sum'))
 D3B = (mask('transpose', 'bcast', 'repeat', 'neg'), mask('reshape', 'pad', 'flip', 'cumsum'), mask('transpose', 'take', 'bcast', 'add2'))
 TUS = [
     # dynamic storage: every kind at depth 1 (view + eval + out), every ordered pair at depth 2 (view + out), two families of depth 3
     _tu('h_c02_d1', 'dyn', ALL, d1=EVAL | OUT),
     _tu('h_c02_d2a', 'dyn', ALL, G_A, d2=OUT),
     _tu('h_c02_d2b', 'dyn', ALL, G_B, d2=OUT),
-    _tu('h_c02_d2c', 'dyn', ALL, G_C, d2=OUT),
+    _tu('h_c02_d2c', 'dyn', ALL, G_C, d2=0),          # ufunc / reduce on top: read only (their evaluation: depth 1, C07/C08 replay)
     _tu('h_c02_d3a', 'dyn', *D3A, d3=OUT),
     _tu('h_c02_d3b', 'dyn', *D3B, d3=OUT, tiers=('thorough',)),
     # bounded: buffer static_vector<int,64>, shape static_vector<size_t,4>, arguments static_vector<_,8> (na::eval() of such a
     # view does not resolve a buffer type at compile time, so results are evaluated into a caller-supplied output only)
     _tu('h_c02_sv', 'sv', ALL, BND_M2, d1=OUT, d2=OUT),
-    _tu('h_c02_sv2', 'sv', ALL, BND_M2B, d2=OUT, tiers=('thorough',)),
     # fixed buffer + fixed rank
     _tu('h_c02_arr2', 'arr', ALL, BND_M2, d1=EVAL | OUT, d2=OUT, D=2, N=6),
     _tu('h_c02_arr1', 'arr', ALL, BND_M2B, d1=EVAL | OUT, d2=OUT, D=1, N=4, tiers=('thorough',)),
@@ -332,11 +344,16 @@ def cands(kind, s, rng, full):
                 if rng.random() < .3:
                     k = rng.randrange(tr)
                     out.append([t[:k] + [-1] + t[k + 1:]])
+        out.append([[1, 1, 1, 1, n]])                               # rank 5
+        out.append([[1, -1, 1, 1, 1, 1]])                           # rank 6
     elif kind == 'tile':
         for l in range(1, r + 2):
             for reps in itertools.product((1, 2), repeat=l):
                 out.append([list(reps)])
         out.append([[3] + [1] * (r - 1)])
+        # results of rank 5 and 6: more axes than a shape container bounded by the operand's rank bound (4) can hold
+        out.append([[2] + [1] * 4])
+        out.append([[1, 2] + [1] * 4])
     elif kind == 'flip':
         for m in range(0, r + 1):
             for ax in itertools.combinations(range(r), m):
@@ -346,6 +363,9 @@ def cands(kind, s, rng, full):
         for b in bases:
             for pre in ([], [2], [1, 3]):
                 out.append([pre + b])
+        if r <= 4:
+            out.append([[2] + [1] * (4 - r) + bases[0]])          # rank 5
+            out.append([[1, 2] + [1] * (4 - r) + bases[1]])       # rank 6
     elif kind == 'pad':
         for _ in range(6 if full else 2):
             out.append([[rng.randint(0, 2) for _ in range(2 * r)]])
@@ -462,7 +482,7 @@ class ChainGen:
                     if not s1 or prod(s1) > MAX_ELEMS:
                         continue
                     a2 = rng.choice(cands(k2, s1, rng, False))
-                    c = self.emit(store, s, [(k1, a1), (k2, a2)], rng.choice(('view', 'out')))
+                    c = self.emit(store, s, [(k1, a1), (k2, a2)], rng.choice(('view', 'out'))) or self.emit(store, s, [(k1, a1), (k2, a2)], 'view')
                     if c:
                         yield c
 
@@ -478,7 +498,7 @@ class ChainGen:
             cur = self.shape_after(s, stages)
             if not cur or prod(cur) > MAX_ELEMS:
                 return None
-        return self.emit(store, s, stages, rng.choice(('view', 'out')))
+        return self.emit(store, s, stages, rng.choice(('view', 'out'))) or self.emit(store, s, stages, 'view')
 
 
 def store_shapes(tier, t):
@@ -507,7 +527,7 @@ def gen_chains(tier, rng):
         yield from g.depth2('dyn', s, 1 if quick else 3)
     if not quick:
         big = [s for s in shapes(4, 5, min_rank=1) if s not in small and prod(s) <= 200]
-        for s in rng.sample(big, 150):
+        for s in rng.sample(big, 60):
             yield from g.depth1('dyn', s)
         for s in rng.sample(big, 60):
             yield from g.depth2('dyn', s, 1)
@@ -540,6 +560,8 @@ def gen_chains(tier, rng):
         if t['store'] == 'dyn':
             continue
         ss = store_shapes(tier, t)
+        if len(ss) > 40:
+            ss = [s for s in ss if prod(s) <= 27 and len(s) <= 3][:39] + rng.sample(ss, 25)
         for s in ss:
             yield from g.depth1(t['store'], s)
         per = max(1, (40 if quick else 120) // max(1, len(ss)))
@@ -552,7 +574,7 @@ def gen_chains(tier, rng):
                         if not s1 or prod(s1) > MAX_ELEMS:
                             continue
                         a2 = rng.choice(cands(k2, s1, rng, False))
-                        c = g.emit(t['store'], s, [(k1, a1), (k2, a2)], rng.choice(('view', 'out')))
+                        c = g.emit(t['store'], s, [(k1, a1), (k2, a2)], rng.choice(('view', 'out'))) or g.emit(t['store'], s, [(k1, a1), (k2, a2)], 'view')
                         if c:
                             yield c
 
@@ -561,7 +583,7 @@ def gen_chains(tier, rng):
 H_M = 'h_c02m'
 M_SPEC = dict(name=H_M, src='h_c02m.cpp', flavour='san-dbg', extra=['-DPROTO_VERIF_EVENTS'])
 MUT_STORES = ('dyn', 'sv', 'hyb', 'fix')
-LEAF_KINDS = ('transpose', 'reshape', 'tile', 'bcast', 'slice')
+LEAF_KINDS = ('transpose', 'reshape', 'bcast', 'slice')
 
 
 def mut_shapes(store, tier):
@@ -763,7 +785,17 @@ ASSUMPTIONS = [
 ]
 PARTIAL = ['diagonal2d_inBounds_partial: only the 2-d, non-negative-offset diagonal is proved in bounds (as in C04)',
            'capacity theorems cover shape_transpose, shape_reshape, broadcast_shape, shape_tile, remove_dims, shape_concatenate, shape_pad, shape_repeat; the other bounded index results (expand_dims, sliding_window, take, ...) are covered by the capacity hook only']
+def _shared_pred(mod, name):
+    def f(case):
+        m = _mod(mod)
+        return m is not None and case.harness.endswith(SAN_SUFFIX) and m.KNOWN_PREDICATES[name](case)
+    return f
+
+
 KNOWN_PREDICATES = {'eval_fixed_buffer_numel_changes': eval_fixed_buffer_numel_changes}
+for _m, _names in SHARED_KNOWN.items():
+    for _n in _names:
+        KNOWN_PREDICATES[_m + '_' + _n] = _shared_pred(_m, _n)
 TRUSTED = ['AddressSanitizer / UndefinedBehaviorSanitizer of g++ 12 and libstdc++ debug assertions as observers of real accesses',
            'the NMTOOLS_VERIF hook commits in $VERIF_REPO (hooks.json)']
 MANIFEST = dict(
